@@ -17,7 +17,7 @@ PROPS["C02"] = dict(
           "open: zero matrix auto/explicit and arbitrary matrix with explicit open type, coordinates up to 1e8; result must be the plain "
           "difference to 1 ulp; non-trivial = distinct points with a non-zero stored matrix. "
           "volume: BoxVolume = |det|, ShortestBoxSize = min_k |det|/|b_i x b_j| recomputed in long double; non-trivial = non-diagonal box."
-          " Histories: in 30 % of the cases the Topology carried another box (orthorhombic / triclinic / open, auto-detected) before the box under test is set. Histories (35 % of the cases): the Topology got another box first (other matrix; the same matrix with another explicit type), or a BoundaryCondition object was used with another box, queried (lazily filled caches) and cloned before the box under test was set."),
+          " Histories: in 30 % of the cases the Topology carried another box (orthorhombic / triclinic / open, auto-detected) before the box under test is set. Histories (35 % of the cases): the Topology got another box first (other matrix; the same matrix with another explicit type), or a BoundaryCondition object was used with another box, queried (lazily filled caches) and cloned before the box under test was set. Tilts include barely tilted cells (2^-21..2^-40 of the edge)."),
     assumptions=COMMON_ASSUME + [
         "image counts up to 10^6 per axis; result tolerance 32*2^-52*(|p1|+|p2|) + 1e-13*Lmax, lattice test 1e-9*(1+|n|)",
         "exact rounding ties (difference of exactly half a brick edge) are accepted with either image and are not counted as non-trivial",
